@@ -40,7 +40,7 @@ ASSUMPTIONS = [
 LEVELS = (0.0, 1.0, 2.0, 3.0)  # multiples of the read-back threshold
 
 
-def sbs(n, p, msl, M, growth, scorer, thr_scale, X=None, level=None):
+def sbs(n, p, msl, M, growth, scorer, thr_scale, X=None, level=None, fit_rows=None):
     from skchange.change_detectors import SeededBinarySegmentation as SBS
 
     kw = {}
@@ -50,7 +50,7 @@ def sbs(n, p, msl, M, growth, scorer, thr_scale, X=None, level=None):
               growth_factor=growth, **kw)
     if X is None:
         X = pd.DataFrame(np.zeros((n, p)))
-    det.fit(X)
+    det.fit(X if not fit_rows else X.iloc[:fit_rows])
     y = det.predict(X)
     core.emit("SeededBinarySegmentation", y, n=len(X), p=X.shape[1], msl=msl)
     cpts = [int(c) for c in y["ilocs"]]
@@ -251,7 +251,8 @@ def check_data(acc, case, key):
     n, p = X.shape
     msl, M, g = case["msl"], case["M"], case["growth"]
     Xf = pd.DataFrame(X)
-    cpts, rows, thr, det = sbs(n, p, msl, M, g, make_score(case["score"]), case["thr_scale"], X=Xf, level=case.get("level"))
+    cpts, rows, thr, det = sbs(n, p, msl, M, g, make_score(case["score"]), case["thr_scale"], X=Xf, level=case.get("level"),
+                               fit_rows=case.get("fit_rows"))
     if not check_intervals(acc, case, key, rows, n, msl, M):
         return
     ref = make_score("L2" if case["score"] == "L2cost" else case["score"]).fit(X)
@@ -264,7 +265,7 @@ def check_data(acc, case, key):
     if not check_rows(acc, case, key, rows, msl, agg, tol=1e-8):
         return
     check_greedy(acc, case, key, rows, cpts, thr)
-    if case["thr_scale"] is None:
+    if case["thr_scale"] is None and not case.get("fit_rows"):
         # tuned threshold: quantile bracket of the training scores (see C15)
         sc = sorted(r[3] for r in rows)
         lo, hi = sc[0], sc[-1]
@@ -395,6 +396,12 @@ def data_cases(tier, seed):
         for flat in itertools.product((0, 3), repeat=2 * n):
             x = [list(flat[2 * i:2 * i + 2]) for i in range(n)]
             yield {"fam": "data", "x": x, "n": n, "score": "CUSUM", "msl": 1, "M": n, "growth": 2.0, "thr_scale": 0.3}
+    # fitted on a shorter prefix, predicting the full series (threshold read back; the statement is about the data given to predict)
+    for n in (7, 8) if tier == "quick" else (7, 8, 9, 10):
+        for xs in itertools.product((0, 3), repeat=n):
+            for k, ts in ((2, 0.3), (n - 3, None)):
+                yield {"fam": "data", "x": list(xs), "n": n, "score": "CUSUM", "msl": 1, "M": 6, "growth": 1.5, "thr_scale": ts,
+                       "level": 0.3 if ts is None else None, "fit_rows": k}
 
 
 FAMILIES = {"grid": lambda t, s: grid_cases(t), "rowmax": lambda t, s: rowmax_cases(t),
